@@ -205,7 +205,7 @@ func concretise(cls string, c *characteristic.Characteristic, remote bool, k int
 	case "frac":
 		return (lo+hi)/2 + 0.5
 	case "numstr":
-		return []string{"12", "-20", "1e3", "0x10"}[k%4]
+		return []string{"12", "-20", "1e3", "0x10", "NaN", "1e999", "-Inf", "Infinity"}[k%8]
 	case "str":
 		return []string{"abc", "tr\"ue\\", "<b>&amp; ", "\U0001F600 é"}[k%4]
 	case "emptystr":
@@ -216,6 +216,19 @@ func concretise(cls string, c *characteristic.Characteristic, remote bool, k int
 		return map[string]interface{}{"a": 1.0}
 	}
 	return nil
+}
+
+// variantsOf: how many representatives concretise has for a class
+func variantsOf(cls string) int {
+	switch cls {
+	case "num_m2", "num_3":
+		return 3
+	case "numstr":
+		return 8
+	case "str":
+		return 4
+	}
+	return 1
 }
 
 func inRange(c *characteristic.Characteristic) bool {
@@ -261,44 +274,72 @@ func runCellWord(b Beh, steps []ccStep, cl cell, k int) []J {
 	conn := newScriptConn()
 	var lines []J
 	for i, s := range steps {
-		before := fmt.Sprintf("%#v", c.Value)
-		cbr, cbl = 0, 0
-		o := J{"ev": "upd", "case": b.ID, "i": i, "cell": cl.name, "fmt": fmtClass(c.Format), "perms": perms, "a": s.A, "cls": s.Cls, "remote": s.Remote,
-			"panic": false, "getpanic": false}
-		switch s.A {
-		case "Update":
-			v := concretise(s.Cls, c, s.Remote, k+i)
-			func() {
-				defer func() {
-					if r := recover(); r != nil {
-						o["panic"] = true
+		// a single-step word is executed with every representative of its class, longer words with one chosen by k
+		nvar := 1
+		if len(steps) == 1 && (s.A == "Update" || s.A == "GetterRead") {
+			nvar = variantsOf(s.Cls)
+		}
+		for vi := 0; vi < nvar; vi++ {
+			kk := k + i
+			if nvar > 1 {
+				kk = vi
+			}
+			before := fmt.Sprintf("%#v", c.Value)
+			cbr, cbl = 0, 0
+			o := J{"ev": "upd", "case": b.ID, "i": i, "cell": cl.name, "fmt": fmtClass(c.Format), "perms": perms, "a": s.A, "cls": s.Cls, "remote": s.Remote,
+				"panic": false, "getpanic": false}
+			switch s.A {
+			case "Update":
+				v := concretise(s.Cls, c, s.Remote, kk)
+				func() {
+					defer func() {
+						if r := recover(); r != nil {
+							o["panic"] = true
+						}
+					}()
+					if s.Remote {
+						c.UpdateValueFromConnection(v, conn)
+					} else {
+						c.UpdateValue(v)
 					}
 				}()
-				if s.Remote {
-					c.UpdateValueFromConnection(v, conn)
-				} else {
-					c.UpdateValue(v)
-				}
-			}()
-		case "TypedGet":
-			_, p := typedGet(obj)
-			o["getpanic"] = p
-		case "Subscribe":
-			// permission check for subscriptions lives in the HTTP handler: exercised by the charstack family
+			case "GetterRead":
+				// the application supplies the value through a getter; a connection (or the application) reads
+				v := concretise(s.Cls, c, false, kk)
+				func() {
+					defer func() {
+						if r := recover(); r != nil {
+							o["panic"] = true
+						}
+					}()
+					c.OnValueGet(func() interface{} { return v })
+					defer c.OnValueGet(nil)
+					if s.Remote {
+						c.GetValueFromConnection(conn)
+					} else {
+						c.GetValue()
+					}
+				}()
+			case "TypedGet":
+				_, p := typedGet(obj)
+				o["getpanic"] = p
+			case "Subscribe":
+				// permission check for subscriptions lives in the HTTP handler: exercised by the charstack family
+			}
+			after := fmt.Sprintf("%#v", c.Value)
+			if after != init {
+				ever = true
+			}
+			jb, jerr := json.Marshal(c)
+			o["dyn"], o["dyn0"], o["everchanged"] = dynClass(c.Value), dyn0, ever
+			o["inrange"] = inRange(c)
+			o["jsonok"] = jerr == nil
+			o["cbr"], o["cbl"] = cbr, cbl
+			o["changed"] = before != after
+			o["valnil"] = c.Value == nil
+			o["jsonhasvalue"] = jerr == nil && strings.Contains(string(jb), `"value":`)
+			lines = append(lines, o)
 		}
-		after := fmt.Sprintf("%#v", c.Value)
-		if after != init {
-			ever = true
-		}
-		jb, jerr := json.Marshal(c)
-		o["dyn"], o["dyn0"], o["everchanged"] = dynClass(c.Value), dyn0, ever
-		o["inrange"] = inRange(c)
-		o["jsonok"] = jerr == nil
-		o["cbr"], o["cbl"] = cbr, cbl
-		o["changed"] = before != after
-		o["valnil"] = c.Value == nil
-		o["jsonhasvalue"] = jerr == nil && strings.Contains(string(jb), `"value":`)
-		lines = append(lines, o)
 	}
 	return lines
 }
